@@ -365,6 +365,40 @@ def many_small(ctx, rng, n):
     ctx.max("small_distinct_stream_prefixes", len(seen_prefix))
 
 
+def foreign_wrappers(ctx, mon, rng):
+    """streams in a wrapper the statement does not promise to read (zlib headers of other levels 78 01 / 78 5e / 78 da, gzip): whether they are read
+    is open - but if one is, it is read like any other: within the limit the whole plaintext, beyond it no data at all"""
+    import gzip
+    j = J.load()
+    key = gen.new_oct(128)
+    for wname, wrap in (("zlib-level1-7801", lambda d: zlib.compress(d, 1)), ("zlib-level5-785e", lambda d: zlib.compress(d, 5)), ("zlib-level9-78da", lambda d: zlib.compress(d, 9)),
+                        ("gzip", lambda d: gzip.compress(d, 6, mtime=0)), ("zlib-window-9", lambda d: (lambda c: c.compress(d) + c.flush())(zlib.compressobj(6, zlib.DEFLATED, 9)))):
+        for n, klass in ((1000, "text"), (LIMIT, "text"), (LIMIT + 1, "text"), (300000, "text"), (LIMIT + 1, "constant"), (64 << 20, "constant")):
+            ctx.ev()
+            data = plaintext(n, klass, rng)
+            st = wrap(data)
+            tk = g.make("compact", "A128GCM", [("dir", key, None)], b"", zip_=True, compressed=st).token
+            mon.proxy.reset()
+            o = call(j.jwe.decrypt_compact, tk, j.key(key), algorithms=["dir", "A128GCM", "DEF"])
+            ctx.count("decrypts")
+            ctx.count("foreign_wrapper_cases")
+            ctx.count("beyond_limit" if n > LIMIT else "within_limit")
+            ctx.nontrivial(("foreign-wrapper", wname, n, klass))
+            ctx.cell("foreign-wrapper", wname, "beyond" if n > LIMIT else "within", "returned" if o.ok else o.etype)
+            dsc = {"foreign_wrapper": wname, "n": n, "class": klass}
+            if o.ok and n > LIMIT:
+                ctx.violation("over-limit-returned:foreign-wrapper", f"{len(o.value.plaintext)} octets returned for a {wname} stream of a {n}-octet plaintext (limit {LIMIT})", dsc)
+            elif o.ok and o.value.plaintext != data:
+                ctx.violation("silently-truncated:foreign-wrapper", f"a {wname} stream of a {n}-octet plaintext came back as {len(o.value.plaintext)} other octets", dsc)
+            elif not o.ok and not o.is_a("JoseError", "ValueError"):
+                ctx.violation(f"bomb-escapes:{o.key}", f"{wname} stream: {o.exc!r}", dsc)
+            elif not o.ok:
+                ctx.open("foreign-wrapper-refused")
+            if mon.proxy.out_total > 2 * LIMIT + 4096:
+                ctx.violation("inflater-unbounded", f"the inflater handed back {mon.proxy.out_total} octets for a {wname} stream of {n} octets (limit {LIMIT})", dsc)
+            del data, st, tk
+
+
 def run_shard(ctx):
     J.load()
     J.register_drafts()
@@ -474,6 +508,8 @@ def run_shard(ctx):
             many_small(ctx, rng, 700 if ctx.tier == "quick" else 30000)
         if ctx.shard in (11, 10):
             first_octet_cases(ctx, rng)
+        if ctx.shard == 12:
+            foreign_wrappers(ctx, mon, rng)
         if ctx.shard in (8, 9):
             # a raw stream that begins with the octets 78 9c (a stored block whose unused header bits are set - RFC 1951 ignores them) followed by
             # a bomb: whichever way the decoder reads it, what comes back stays within the limit
@@ -547,7 +583,9 @@ def replay(ctx, case):
     J.register_drafts()
     mon = Mon(ctx)
     try:
-        if "n" in case and case.get("class") in CLASSES:
+        if case.get("foreign_wrapper"):
+            foreign_wrappers(ctx, mon, ctx.rng)
+        elif "n" in case and case.get("class") in CLASSES:
             for _ in range(3):
                 mon.case(case["n"], case["class"], case["variant"], case["enc"], case["form"], ctx.rng)
         else:
